@@ -29,6 +29,16 @@ theorem C05_ptr_offset_back (w va off : Nat) (hv : va < 2 ^ w) (ho : off < 2 ^ w
   · rw [Nat.mod_eq_of_lt (show 2 ^ w - off < 2 ^ w by omega)]
     rw [Nat.mod_add_mod, show va + off + (2 ^ w - off) = va + 2 ^ w by omega, Nat.add_mod_right, Nat.mod_eq_of_lt hv]
 
+/-- a negative byte offset `-k` (two's complement `2^w - k`) steps back `k` bytes — in BOTH formats (the sixth round's
+C05-r6-1 zero-extended the 32-bit pattern in PE32+: `p.offset(-16)` became `p + 2^32 - 16`) -/
+theorem C05_ptr_offset_neg (w va k : Nat) (hv : va < 2 ^ w) (hk : k ≤ va) (hk0 : 0 < k) :
+    offset w va (2 ^ w - k) = va - k := by
+  unfold offset
+  rw [show va + (2 ^ w - k) = (va - k) + 2 ^ w by omega, Nat.add_mod_right, Nat.mod_eq_of_lt (by omega)]
+
+theorem C05_ptr_offset_pos (w va k : Nat) (h : va + k < 2 ^ w) : offset w va k = va + k := by
+  unfold offset; exact Nat.mod_eq_of_lt h
+
 theorem C05_ptr_member (w va off : Nat) (h : va + off < 2 ^ w) : member w va off = .ok (va + off) := by
   simp [member, h]
 
